@@ -432,3 +432,5 @@ func c20Cram(r *core.Result, rng *rand.Rand) {
 		r.Violate("panic|cram-stream|"+core.TopLibFrame(st), "cram reader panicked on a spec-built stream: %v", pv)
 	}
 }
+
+func putCRC(dst, data []byte) { binary.LittleEndian.PutUint32(dst, crc32.ChecksumIEEE(data)) }
